@@ -37,6 +37,7 @@ impl ZipFileData {
 //@item src/crc32.rs | struct Crc32Reader
 //@item src/read.rs | struct ZipFile
 //@include spec/entry_views.rs
+//@include spec/entry_pos.rs
 impl<'a> Dev for ZipFile<'a> {
     open spec fn g_ready(&self) -> bool { zf_wf(self) }
     open spec fn g_dev(&self) -> bool { false }
@@ -79,6 +80,11 @@ impl ZipStreamFileMetadata {
 //@use zsfm_enclosed_name
 //@use zsfm_mangled_name
 //@use zsfm_unix_mode
+//@use zsfm_name
+//@use zsfm_name_raw
+//@use zsfm_comment
+//@use zsfm_is_dir
+//@use zsfm_is_file
 }
 // T11: the crate's visitor trait; members verbatim (checked against the source by name below)
 //@impl src/read/stream.rs | impl<R: Read> ZipStreamReader<R>
